@@ -78,16 +78,26 @@ EditC(p, e) == /\ cloned /\ Applies(e[1], DocAt(docsC, p))
                /\ hist' = Append(hist, [op |-> "edit", who |-> "c", p |-> p, k |-> e[1], x |-> e[2]])
                /\ UNCHANGED <<docs0, text0, copy, docsO, cloned, scribbled>>
 
+(* An object may be handed back to the parser as its `reuse` argument: it then holds the new document, and the OTHER *)
+(* object (clone resp. original) must not notice.                                                                   *)
+OtherDocs == << <<"a", << <<"num", <<52, 50>>>>, <<"s", <<111, 116, 104, 101, 114>>>> >> >> >>       \* [42,"other"]
+ReuseC == /\ cloned
+          /\ docsC' = OtherDocs /\ hist' = Append(hist, [op |-> "reuse", who |-> "c"])
+          /\ UNCHANGED <<docs0, text0, copy, docsO, cloned, scribbled>>
+ReuseO == /\ cloned
+          /\ docsO' = OtherDocs /\ hist' = Append(hist, [op |-> "reuse", who |-> "o"])
+          /\ UNCHANGED <<docs0, text0, copy, docsC, cloned, scribbled>>
+
 Next == /\ Len(hist) < MaxOps
-        /\ \/ Scribble \/ Clone
+        /\ \/ Scribble \/ Clone \/ ReuseC \/ ReuseO
            \/ \E p \in AllPaths(docsO), e \in EditOps : EditO(p, e)
            \/ (cloned /\ \E p \in AllPaths(docsC), e \in EditOps : EditC(p, e))
         /\ UNCHANGED <<prev, how>>
 Spec == Init /\ [][Next]_vars
 
 \* M: the two documents only ever change through their own edits
-Independence == [][(docsO' # docsO => hist'[Len(hist')].op = "edit" /\ hist'[Len(hist')].who = "o")
-                   /\ (docsC' # docsC /\ cloned => hist'[Len(hist')].op = "edit" /\ hist'[Len(hist')].who = "c")]_vars
+Independence == [][(docsO' # docsO => hist'[Len(hist')].op \in {"edit", "reuse"} /\ hist'[Len(hist')].who = "o")
+                   /\ (docsC' # docsC /\ cloned => hist'[Len(hist')].op \in {"edit", "reuse"} /\ hist'[Len(hist')].who = "c")]_vars
 \* M: with copying, no string word of the tape refers to the input; without, exactly the escape-free ones do
 RegionRule == LET t == TapeOf(docs0, copy).w IN
               \A i \in 1..Len(t) : (t[i][1] = "\"m") => ~copy
